@@ -21,7 +21,7 @@ P = {
          "§5 C02"),
  "C03": ("proof",
          "abstract interpretation: CNF must-fact dataflow over the fully inlined SSA graph of every ABI method; entailment of (effect not executed or required witness) at every normal exit",
-         "For each of the non-safe ABI methods of the 11 contracts and each effect site reachable in its inlined graph, the facts at every normal exit entail 'not executed or required witness', the requirement coming from the documented table (DESIGN App. A). Because all paths of all methods are covered at once and a faulted transaction persists nothing, this is a proof that an invocation without the documented witnesses leaves no trace; thresholds are classified symbolically (2n/3+1 vs n/2+1 over the documented key source, every n); safe methods reach no effect; verify methods return true only under the documented multisignature. obligations == discharged is required for the check to pass.",
+         "For each of the non-safe ABI methods of the 11 contracts and each effect site reachable in its inlined graph, the facts at every normal exit entail 'not executed or required witness', the requirement coming from the documented table (DESIGN App. A). Because all paths of all methods are covered at once and a faulted transaction persists nothing, this is a proof that an invocation without the documented witnesses leaves no trace; thresholds are classified symbolically (2n/3+1 vs n/2+1 over the documented key source, every n); safe methods reach no effect; verify methods return true only under the documented multisignature; the notary-disabled vote protocol (member voter, exact threshold, distinct counting, window) is part of the check. obligations == discharged is required for the check to pass.",
          "§5 C03, App. A"),
  "C04": ("other",
          "storage-layout analysis over canonical key terms (who-may-delete, writer/remover agreement, paired indices) + must-facts for tombstone/existence guards + exit-fact equivalence of notification and state change",
@@ -29,7 +29,7 @@ P = {
          "§5 C04"),
  "C05": ("other",
          "term agreement and must-facts at the fee transfer call; loop-shape analysis; dominance; must-execute fact at the exits of the fee setter",
-         "Decides that the transferX amount is ContainerFee when no name is given and ContainerFee + ContainerAliasFee exactly when a name is given (same predicate as the alias registration), loop-invariant, one call per committee key with no early exit, payer = owner parsed from the blob, details = 0x10||id, registry write dominated by the loop exit, no exception-catching frame around the transfers; every normal return of netmap.SetConfig has stored the submitted value (a fee of 0 included). Balance-boundary exactness is delegated to C01, hence 'other'.",
+         "Decides that the transferX amount is ContainerFee when no name is given and ContainerFee + ContainerAliasFee exactly when a name is given (same predicate as the alias registration), loop-invariant, one call per committee key with no early exit, payer = owner parsed from the blob, details = 0x10||id, registry write dominated by the loop exit, no exception-catching frame around the transfers; every normal return of netmap.SetConfig has stored the submitted value (a fee of 0 included); the debit/credit leg rules of balance's transfer helper are re-run (payer = payee included). Balance-boundary exactness is delegated to C01, hence 'other'.",
          "§5 C05"),
  "C06": ("other",
          "must-facts at every effect of NewEpoch, write-set exclusion, term checks of published keys/values, loop-shape of the fan-out, membership-loop dominance of the subscription write",
@@ -37,7 +37,7 @@ P = {
          "§5 C06"),
  "C07": ("other",
          "term agreement witnessed key = storage key, must-facts at stores, exit-fact equivalences across both candidate representations, dispatch coverage",
-         "Decides: stored key is the witnessed key; Online on add; every effect of the state dispatch under a declared state, Offline removes / Online, Maintenance rewrite; removal deletes both representations together; an update rewrites every present representation as the stored record with only State replaced and cannot succeed with no write; exactly one UpdateStateSuccess / AddPeerSuccess / AddNode with the change; single emitters and writers. Agreement with a reference model over histories is not decided, hence 'other'.",
+         "Decides: every effect of the candidate entry points is gated by the documented witnesses (node key and Alphabet); stored key is the witnessed key; Online on add; every effect of the state dispatch under a declared state, Offline removes / Online, Maintenance rewrite; removal deletes both representations together; an update rewrites every present representation as the stored record with only State replaced and cannot succeed with no write; exactly one UpdateStateSuccess / AddPeerSuccess / AddNode with the change; single emitters and writers. Agreement with a reference model over histories is not decided, hence 'other'.",
          "§5 C07"),
  "C08": ("other",
          "divisor-non-zero rule over storage writers, sibling agreement of retention bounds as canonical linear terms, must-facts at ring index computations",
@@ -45,27 +45,27 @@ P = {
          "§5 C08"),
  "C09": ("other",
          "abstract interpretation + term agreement at the refund call of NewEpoch and the lock record of Lock",
-         "Decides that Lock writes {0, until, from} at the lock account before transferring, that the NewEpoch refund is called only under Until != 0 and epochNum >= Until with from = scanned key, to = Parent, amount = Balance of the record loaded from that key, that the re-read by the debit leg cannot be preceded by another account store (so the record is deleted: no second unlock), that partial burns keep Until/Parent, that an iteration of the tick goes round the refund only for a non-account key, Until = 0 or epochNum < Until and the scan is left only on exhaustion (every visited expired lock is released), and that a fresh deploy subscribes to the tick. Timing over tick schedules and iterator semantics are assumed, hence 'other'.",
+         "Decides that Lock writes {0, until, from} at the lock account before transferring, that the NewEpoch refund is called only under Until != 0 and epochNum >= Until with from = scanned key, to = Parent, amount = Balance of the record loaded from that key, that the re-read by the debit leg cannot be preceded by another account store (so the record is deleted: no second unlock), that partial burns keep Until/Parent, that a successful transfer of an account's whole loaded balance deletes its record for every amount (0 included), that an iteration of the tick goes round the refund only for a non-account key, Until = 0 or epochNum < Until and the scan is left only on exhaustion (every visited expired lock is released), and that a fresh deploy subscribes to the tick. Timing over tick schedules and iterator semantics are assumed, hence 'other'.",
          "§5 C09"),
  "C10": ("other",
          "per-path ledger balance over effect literals, single writers, term checks of stored records/notifications, boundary-operator agreement over all time/expiration comparisons, ordering of release before credit",
-         "Decides: supply/balances/token index written only by their helpers; at every exit of every ABI method every feasible combination of balance/supply updates is balanced; one Transfer(prev owner, new owner, 1, name) exactly with the record write; Transfer stores the loaded record with Owner := to, Admin := nil; Renew bounds (1..10 years, +365*24*3600*1000*years, ten-year cap for non-TLD); every direct comparison of block time with an Expiration puts t == expiration on the expired side; OwnerOf/Properties only for unexpired names with live parents; release of the old owner precedes the credit of the new one. Availability over time and enumeration equality are not decided, hence 'other'.",
+         "Decides: supply/balances/token index written only by their helpers; at every exit of every ABI method every feasible combination of balance/supply updates is balanced; one Transfer(prev owner, new owner, 1, name) exactly with the record write; Transfer stores the loaded record with Owner := to, Admin := nil; Renew bounds (1..10 years, +365*24*3600*1000*years, ten-year cap for non-TLD); every direct comparison of block time with an Expiration puts t == expiration on the expired side; OwnerOf/Properties only for unexpired names with live parents; release of the old owner precedes the credit of the new one; Transfer and Register hand control to the receiver's callback only after all their stores. Availability over time and enumeration equality are not decided, hence 'other'.",
          "§5 C10"),
  "C11": ("other",
          "abstract interpretation: gate entailment with subject agreement between the witnessed NameState and the token id keying the changed record",
-         "For addRecord/setRecord/deleteRecords/updateSOA/renew every effect is gated by committee or W(owner(T)) or W(admin(T)) with T exactly the token id keying the written/deleted record; transfer by W(owner); setAdmin by W(owner) and (admin nil or W(admin)); register by W(owner argument) and, above level 2, the admin formula of the name without its first label; checkAdmin's own formula. Signer sets over histories are not enumerated, hence 'other'.",
+         "For addRecord/setRecord/deleteRecords/updateSOA/renew every effect is gated by committee or W(owner(T)) or W(admin(T)) with T exactly the token id keying the written/deleted record; transfer by W(owner); setAdmin by W(owner) and (admin nil or W(admin)); register by W(owner argument) and, above level 2, the admin formula of the name without its first label; checkAdmin's own formula; Transfer stores the record with Admin := nil (a former admin loses its rights). Signer sets over histories are not enumerated, hence 'other'.",
          "§5 C11"),
  "C12": ("other",
          "must-facts at record stores, exit facts for the SOA refresh, key-schema analysis of the record family, constant/argument checks of the redirect budget",
-         "Decides: id <= 15 and CNAME => id == 0 at the AddRecord store, id = count of the scan of the same (token, name, type); SetRecord only after the record with that id was read present; DeleteRecords never for SOA and deletes exactly the scanned keys; every normal path of the three mutators refreshes the SOA of the same token; Resolve starts with budget 2, recursion passes budget-1, negative cannot return; Register only with 'no conflicting parent record'; record keys are fixed width so scans are exact; GetRecords/GetAllRecords/resolve scan the records of a token only with its own and its parents' liveness established. Equality of the read paths with a model is not decided, hence 'other'.",
+         "Decides: id <= 15 and CNAME => id == 0 at the AddRecord store, id = count of the scan of the same (token, name, type); SetRecord only after the record with that id was read present; DeleteRecords never for SOA and deletes exactly the scanned keys; every normal path of the three mutators refreshes the SOA of the same token; Resolve starts with budget 2, recursion passes budget-1, negative cannot return; Register only with 'no conflicting parent record'; record keys are fixed width so scans are exact; resolve follows a CNAME only after the loop over the name's own records; GetRecords/GetAllRecords/resolve scan the records of a token only with its own and its parents' liveness established. Equality of the read paths with a model is not decided, hence 'other'.",
          "§5 C12"),
  "C13": ("other",
          "AST/type lints specific to deploy/ with positive controls + SSA dominance and taint rules",
-         "Explicitly thin: structural necessary conditions only. Index-space consistency of re-sliced ranges; no map iteration order reaching a witness script; tryDeploy/tryTransfer computed as 'local index == 0' and dominating every deploying/funding submission; committee sorted before the index search; NNS stage first; no import that can persist local progress; encoder/decoder field tables of the shared transaction data and checksum helpers agree; name constants agree across deploy, rpc/nns, common and the contracts; a closure invalidating the shared transaction clears the signature cache validated against it; Transaction.Nonce/ValidUntilBlock depend on a chain height only through the window index (SSA taint). Termination/convergence under schedules and crash points, fund and window arithmetic are NOT decided (would need execution or model checking).",
+         "Explicitly thin: structural necessary conditions only. Index-space consistency of re-sliced ranges; no map iteration order reaching a witness script; tryDeploy/tryTransfer computed as 'local index == 0' and dominating every deploying/funding submission; committee sorted before the index search; NNS stage first; no import that can persist local progress; encoder/decoder field tables of the shared transaction data and checksum helpers agree; name constants agree across deploy, rpc/nns, common and the contracts; a closure invalidating the shared transaction clears the signature cache validated against it; Transaction.Nonce/ValidUntilBlock depend on a chain height only through the window index (SSA taint); a typed constant a call is made with agrees with the one its error wrap names. Termination/convergence under schedules and crash points, fund and window arithmetic are NOT decided (would need execution or model checking).",
          "§5 C13"),
  "C14": ("other",
          "typestate/loop-shape analysis of the counting loop, key-schema analysis of the roster families, must-facts at acceptance and notification",
-         "Decides: roster key schemas fixed-width with len(cid) == 32 guarded; commit deletes all old n/r keys, moves every scanned u key to n||key[1:] with its value, old-n scan before any n put; the signature check is reachable only through the exhausted exit of a membership loop over a per-vector collection of already counted member keys, insertion and increment only on the success branch; acceptance under counter == REP of that cid, members scanned for the vector that selects the signature list, true only after the REP scan is exhausted; SubmitObjectPut notifies only after verification of (cid from meta, meta, sigs) with the meta flag present. The BE16 counter byte codec is value-level and NOT decided.",
+         "Decides: roster key schemas fixed-width with len(cid) == 32 guarded; commit deletes all old n/r keys, moves every scanned u key to n||key[1:] with its value, old-n scan before any n put, each of the five loops reached on every normal path (REP writes only for a non-nil list), left only on exhaustion and with no iteration going round its operation; the signature check is reachable only through the exhausted exit of a membership loop over a per-vector collection of already counted member keys, insertion and increment only on the success branch; acceptance under counter == REP of that cid, members scanned for the vector that selects the signature list, true only after the REP scan is exhausted; SubmitObjectPut notifies only after verification of (cid from meta, meta, sigs) with the meta flag present. The BE16 counter byte codec is value-level and NOT decided.",
          "§5 C14"),
  "C15": ("translation_validation",
          "translation validation by recompilation with the pinned compiler + AST/SSA checks of embed set, deploy order, version",
@@ -73,7 +73,7 @@ P = {
          "§5 C15, §3.7"),
  "C16": ("other",
          "abstract interpretation of every Update and of every _deploy with isUpdate = true: gate entailment, version-bound facts at every effect and exit, write-set inclusion in the migration table with per-entry version guards, move/re-visit rules",
-         "Decides: all 11 Update methods call management.update only under the documented majority (the NeoFS Alphabet designated for the next block for neofs/processing) with (script, manifest, data + Version); every _deploy(update) establishes PrevVersion <= v < Version at every effect and exit for v = last element of data; its write set is within the documented migration table, each step under its version guard and gone round only when the stored version is already at or above the recorded layout-change version (skip-edge rule), no fresh-deploy initialisation reachable; migrations are whole moves selected by key length and re-visit safe. Read-API preservation for arbitrary prior storages is not decided, hence 'other'.",
+         "Decides: all 11 Update methods call management.update only under the documented majority (the NeoFS Alphabet designated for the next block for neofs/processing) with (script, manifest, data + Version); every _deploy(update) establishes PrevVersion <= v < Version at every effect and exit for v = last element of data; its write set is within the documented migration table, each step under its version guard and gone round only when the stored version is already at or above the recorded layout-change version (skip-edge rule), no fresh-deploy initialisation reachable; index-keyed in-place rewrites run over the stored count; migrations are whole moves selected by key length and re-visit safe. Read-API preservation for arbitrary prior storages is not decided, hence 'other'.",
          "§5 C16, App. C"),
  "C17": ("other",
          "must-facts at the vote call and action effects, exit-fact exclusion on the quiet return, operator-normalised boundary agreement of the 20-block window, term check of the refreshed ballot, membership-loop dominance of the voter insertion",
@@ -81,7 +81,7 @@ P = {
          "§5 C17"),
  "C18": ("other",
          "must-facts: validation precedes state, dispatch coverage of record types, numeric limits at the accepting exits of the validators, digit fact before every decimal Atoi",
-         "Explicitly thin. Decides: Register/RegisterTLD reach effects only after the name validator accepted the name, AddRecord/SetRecord only after the type-specific validator accepted the data and only for A/CNAME/TXT/AAAA; accepting exits establish 3 <= len <= 255, fragments 1..63, the last label validated as root (<= 16, leading letter); every decimal Atoi in a validator is reached only with a digit first byte. That the scanners accept EXACTLY the well-formed strings is NOT decided.",
+         "Explicitly thin. Decides: Register/RegisterTLD reach effects only after the name validator accepted the name, AddRecord/SetRecord only after the type-specific validator accepted the data and only for A/CNAME/TXT/AAAA; accepting exits establish 3 <= len <= 255, fragments 1..63, the last label validated as root (<= 16, leading letter), first and last byte of every accepted fragment in [a-z0-9] and every inner byte in [a-z0-9-] (loop 1..len-2); every decimal Atoi in a validator is reached only with a digit first byte. That the scanners accept EXACTLY the well-formed strings is NOT decided.",
          "§5 C18"),
  "C19": ("other",
          "must-facts at notification/transfer sites, canonical arithmetic terms of the shares, loop-shape of per-node transfers",
